@@ -92,9 +92,18 @@ class Blockwise(ArrayExpr):
             return meta
 
     @cached_property
+    def _unified(self):
+        """``unify_chunks_expr`` of the arguments, once per node: the advertised
+        chunks and the lowering must come out of the *same* unification -- its
+        policy and limit are read from the configuration, which may differ
+        between construction and graph-build time."""
+        return unify_chunks_expr(*self.args)
+
+    @cached_property
     def chunks(self):
         if self.align_arrays:
-            chunkss, arrays, _ = unify_chunks_expr(*self.args)
+            chunkss, arrays, _ = self._unified
+            chunkss = dict(chunkss)
         else:
             arginds = [(a, i) for (a, i) in toolz.partition(2, self.args) if i is not None]
             chunkss = {}
@@ -499,7 +508,7 @@ class Blockwise(ArrayExpr):
 
     def _lower(self):
         if self.align_arrays:
-            _, arrays, changed = unify_chunks_expr(*self.args)
+            _, arrays, changed = self._unified
             if changed:
                 args = []
                 for idx, arr in zip(self.args[1::2], arrays):
@@ -748,7 +757,7 @@ class Blockwise(ArrayExpr):
             # The block ranges below are ranges of the *unified* layout, and
             # each operand is cut at its own block boundaries: put the
             # operands on the unified layout first (what _lower would do).
-            _, arrays, changed = unify_chunks_expr(*self.args)
+            _, arrays, changed = self._unified
             if changed:
                 aligned_args = []
                 for idx, arr in zip(self.args[1::2], arrays):
@@ -1052,7 +1061,7 @@ class Elemwise(Blockwise):
         # Elemwise stores just arrays in operands, but args generates (array, indices) pairs.
         # After unifying chunks, we only pass the unified arrays (not indices) to the constructor.
         if self.align_arrays:
-            _, arrays, changed = unify_chunks_expr(*self.args)
+            _, arrays, changed = self._unified
             if changed:
                 # Only pass the unified arrays, not the indices
                 # When where is an array, the last two arrays are where and out
